@@ -41,9 +41,10 @@ class Alarm(BaseException):
 
 
 class RecDecomp:
-    def __init__(self, wbits, log):
+    def __init__(self, wbits, log, log_args):
         self._d = real_zlib.decompressobj(wbits)
         self._log = log
+        self._log_args = log_args
         self._empties = 0
         self._after_eof = 0
 
@@ -59,14 +60,17 @@ class RecDecomp:
     def unconsumed_tail(self):
         return self._d.unconsumed_tail
 
-    def decompress(self, data, *a):
+    def decompress(self, data, *a, **kw):
+        if a or kw:
+            # the model's decompressor has one argument: decompress(rawblock) returns everything the block yields
+            self._log_args.append("decompress called with extra arguments %r %r" % (a, kw))
         if self._d.eof:
             # the current code never feeds the decompressor after the end marker; the pre-fix loop did, for
             # ever, doubling unused_data each time -- stop it deterministically before memory explodes
             self._after_eof += 1
             if self._after_eof > 6:
                 raise Spin("decompress() called %d times after the end-of-stream marker" % self._after_eof)
-        out = self._d.decompress(data, *a)
+        out = self._d.decompress(data, *a, **kw)
         self._empties = 0 if out else self._empties + 1
         if len(self._log) < 100000:
             self._log.append((sh.sha(data), len(data), sh.sha(out), len(out), self._d.eof, len(self._d.unused_data)))
@@ -81,11 +85,12 @@ class RecDecomp:
 class ZlibProxy:
     def __init__(self):
         self.epochs = []
+        self.odd_args = []
 
     def decompressobj(self, wbits=real_zlib.MAX_WBITS, *a):
         log = []
         self.epochs.append(log)
-        return RecDecomp(wbits, log)
+        return RecDecomp(wbits, log, self.odd_args)
 
     def __getattr__(self, name):
         return getattr(real_zlib, name)
@@ -171,6 +176,7 @@ def run_read(case):
     bufsize = case.get("bufsize") or DEFAULT_BUFSIZE
     jc._BUFFER_SIZE = bufsize
     del PROXY.epochs[:]
+    del PROXY.odd_args[:]
     script, outs, blocks = sh.script_of(raw, case["fmt"], bufsize)
     target, cleanup, _ = open_target(case, "rb", raw)
     res = []
@@ -200,7 +206,9 @@ def run_read(case):
     # validate the script against what the file object's decompressors were really given
     script_ok = True
     why = None
-    for ep in PROXY.epochs:
+    if PROXY.odd_args:
+        script_ok, why = False, PROXY.odd_args[0]
+    for ep in PROXY.epochs if script_ok else []:
         for i, (sin, nin, sout, nout, eof, nun) in enumerate(ep):
             if i >= len(script["lens"]):
                 script_ok, why = False, "decompress call %d beyond the %d stream blocks" % (i, len(script["lens"]))
